@@ -137,6 +137,35 @@ def suite_extract(ctx):
         with warnings.catch_warnings():
             warnings.simplefilter('ignore')
             oned, imat = model.extract_1d(**kw)
+        if t % 5 == 2:
+            # the same model, points and ellipse moved to UTM-like coordinates
+            # (multiples of 12.5 m: exact): the same layered model comes out
+            T = np.array([437250.0, 6731400.0, 0.0])
+            g2 = emg3d.TensorMesh([grid.h[0], grid.h[1], grid.h[2]],
+                                  grid.origin + T)
+            with warnings.catch_warnings():
+                warnings.simplefilter('ignore')
+                m2 = emg3d.Model(g2, mapping=m, mu_r=mur, **{
+                    'property_'+d: getattr(model, 'property_'+d)
+                    for d in sig})
+                kw2 = dict(kw, p0=(p0[0]+T[0], p0[1]+T[1]),
+                           p1=(p1[0]+T[0], p1[1]+T[1]))
+                o2, i2 = m2.extract_1d(**kw2)
+            same = np.allclose(i2, imat, rtol=1e-7, atol=1e-12) and \
+                np.array_equal(o2.grid.nodes_z, oned.grid.nodes_z) and all(
+                    np.allclose(getattr(o2, 'property_'+d),
+                                getattr(oned, 'property_'+d), rtol=1e-7)
+                    for d in sig)
+            if not same:
+                bad.append(('far origin', (method, m, lateral, merge, vti)))
+                ctx.violation(
+                    'extraction-depends-on-position',
+                    f'extract_1d ({method}, {m}, merge={merge}): the same '
+                    f'model, points and ellipse moved by {T[:2].tolist()} give '
+                    f'another layered model / other weights (max |diff| of '
+                    f'the weights {float(np.max(np.abs(i2-imat))):.3g})',
+                    {'method': method, 'mapping': m, 'p0': list(p0),
+                     'p1': list(p1), 'ellipse': repr(kw.get('ellipse'))})
         # the selection of the real ellipse function is an input of the model
         if method == 'midpoint':
             use = None
